@@ -98,3 +98,40 @@ def run(cx, chk):
             else:
                 chk.ok("C07.shape", tag + " growing", {"rule": tag, "directives": sorted(r.flags)})
     chk.floor("C07.shape", "rules marked @leftrec in the analysed grammars", k, 10)
+    check_skew(cx, chk)
+
+
+def check_skew(cx, chk):
+    """The growing wrapper keys its seed by the rule's *entry* state, and a skipping rule skips whitespace before every rule
+    reference - the left-recursive one included.  With whitespace in front of the rule, the recursive reference therefore runs
+    from the state *behind* the whitespace: another cache key, no seed, and the rule is evaluated there as a fresh left-recursive
+    rule; back at the entry key nothing grows.  Decided per analysed grammar: a @leftrec rule without @no_skip_ws one of whose
+    alternatives starts with a reference to itself has this shape (one finding for the generator, the rules are listed)."""
+    hits = []
+    n = 0
+    for inst in cx.instances():
+        g = cx.grammar_of(inst)
+        if g is None:
+            continue
+        for r in g.rules:
+            if r.kind != "rule" or "leftrec" not in r.flags or r.body is None:
+                continue
+            n += 1
+            if "no_skip_ws" in r.flags:
+                continue
+            alts = r.body[1] if r.body[0] == "choice" else [r.body]
+            for a in alts:
+                first = a
+                while isinstance(first, tuple) and first and first[0] in ("seq", "choice", "group") and first[1]:
+                    first = first[1][0] if isinstance(first[1], list) else first[1]
+                if isinstance(first, tuple) and first and first[0] == "field" and first[3] == r.name:
+                    hits.append("%s/%s" % (inst.name, r.name))
+                    break
+    if hits:
+        chk.violation("C07.key", "leftrec reference behind a whitespace skip",
+                      "%d of %d analysed @leftrec rules skip whitespace and start an alternative with a reference to themselves (%s, ...): the wrapper "
+                      "stores its seed under the key of the entry state, the recursive reference is evaluated from the state behind the skipped "
+                      "whitespace - with leading whitespace (`Expression::parse(\" 1+2\")`) the rule does not grow at its entry and returns only the "
+                      "base alternative" % (len(hits), n, ", ".join(hits[:3])))
+    else:
+        chk.ok("C07.key", "leftrec references start from the entry state", {"leftrec_rules": n})
